@@ -88,3 +88,16 @@ Example bolt12_vector_3 :
     "010203e80208000001000002000303310266e4598d1d3c415f572a8488830b60f7e744ed9235eb0b1ba93283b315c0351800000000000000010000000000000002")) =
   Some "ab2e79b1283b0b31e0b035258de23782df6b89a38cfa7237bde69aed1a658c5d"%string.
 Proof. vm_compute. reflexivity. Qed.
+
+(** [verify_using_recipient_data]: the nonce comes from the blinded path, the keys are derived. *)
+Definition meta_verdict_offer_rd (key_material nonce : Bolt12Merkle.bytes) (stream : Bolt12Merkle.bytes) : string * Bolt12Merkle.bytes :=
+  match split_records stream with
+  | None => ("malformed"%string, [])
+  | Some rs =>
+      match hmac_input nonce IV_OFFER_WITHOUT_METADATA (offer_records_for_metadata true rs) with
+      | None => ("Err"%string, [])
+      | Some inp =>
+          ("DerivedKeys"%string,
+           hmac_sha256 (offers_base_key key_material) (inp ++ WITHOUT_ENCRYPTED_PAYMENT_ID_HMAC_INPUT))
+      end
+  end.
